@@ -178,3 +178,72 @@ Definition store_id (s : nstate) : nstate := s.
 (* accumulate: self.state is the model's st_acc, None = the no_default sentinel *)
 Definition accumulate_state (s : nstate) : option val := st_acc s.
 Definition accumulate_state_set (v : val) (s : nstate) : nstate := set_acc s (Some v).
+
+(* ---- more builtins ------------------------------------------------------------------------------------------- *)
+Definition is_none {A} (o : option A) : bool := match o with None => true | Some _ => false end.
+Definition is_none_fn {A B} (o : option (A -> B)) : bool := is_none o.
+(* self._key(x) where self._key may be None: calling None raises *)
+Definition opt_callf {A B} (o : option (A -> B)) (a : A) : option B :=
+  match o with Some f => Some (f a) | None => None end.
+(* state >= end where end may be None (python 3 refuses to order an int and None; the source guards it) *)
+Definition optnat_le (o : option nat) (n : nat) : bool := match o with Some e => e <=? n | None => false end.
+
+(* ---- partition: _buffer and _metadata_buffer are defaultdict(list) with the same keys; the model keeps, per key,
+        the pair (buffer, metadata buffer) in st_keyed.  Reading a missing key creates the empty entry. *)
+Definition kget (k : val) (s : nstate) : list val * md :=
+  match assoc_get k (st_keyed s) with Some b => b | None => ([], []) end.
+Definition kput (k : val) (b : list val * md) (s : nstate) : nstate := set_keyed s (assoc_set k b (st_keyed s)).
+Definition partition__buffer_touch (k : val) (s : nstate) : nstate := kput k (kget k s) s.
+Definition partition__buffer_getitem (k : val) (s : nstate) : list val := fst (kget k s).
+Definition partition__buffer_setitem (k : val) (v : list val) (s : nstate) : nstate := kput k (v, snd (kget k s)) s.
+Definition partition__buffer_item_append (k : val) (x : val) (s : nstate) : nstate :=
+  kput k (fst (kget k s) ++ [x], snd (kget k s)) s.
+Definition partition__metadata_buffer_touch (k : val) (s : nstate) : nstate := kput k (kget k s) s.
+Definition partition__metadata_buffer_getitem (k : val) (s : nstate) : md := snd (kget k s).
+Definition partition__metadata_buffer_setitem (k : val) (v : md) (s : nstate) : nstate := kput k (fst (kget k s), v) s.
+Definition partition__metadata_buffer_item_extend (k : val) (m : md) (s : nstate) : nstate :=
+  kput k (fst (kget k s), snd (kget k s) ++ m) s.
+
+(* ---- sliding_window: _buffer = deque(maxlen=n) of values (st_seen); metadata_buffer = deque(maxlen=n) of metadata
+        lists: the model keeps them in st_win together with the value they arrived with (a ghost: the last element of
+        _buffer at the time of the append) *)
+Definition sliding_window__buffer (s : nstate) : list val := st_seen s.
+Definition sliding_window__buffer_append (n : nat) (x : val) (s : nstate) : nstate :=
+  set_seen s (lastn n (st_seen s ++ [x])).
+Definition sliding_window_metadata_buffer (s : nstate) : list md := map snd (st_win s).
+Definition sliding_window_metadata_buffer_append (n : nat) (m : md) (s : nstate) : nstate :=
+  set_win s (lastn n (st_win s ++ [(last (st_seen s) VNone, m)])).
+Definition sliding_window_metadata_buffer_popleft (s : nstate) : option (md * nstate) :=
+  match st_win s with
+  | (_, m) :: t => Some (m, set_win s t)
+  | [] => None                       (* IndexError: pop from an empty deque *)
+  end.
+
+(* ---- unique (history kept as a list, most recent first) ------------------------------------------------------ *)
+Definition unique_seen_contains (y : val) (s : nstate) : bool := mem_val y (st_seen s).
+Definition unique_seen_remove (y : val) (s : nstate) : nstate := set_seen s (remove_val y (st_seen s)).
+Definition unique_seen_insert (y : val) (s : nstate) : nstate := set_seen s (y :: st_seen s).     (* insert(0, y) *)
+(* del l[k:]; del l[None:] empties the list *)
+Definition unique_seen_delfrom (k : option nat) (s : nstate) : nstate :=
+  set_seen s (match k with Some k => firstn k (st_seen s) | None => [] end).
+
+(* ---- collect: cache and metadata_cache are two flat deques.  Python-level state: the values, and the metadata in
+        the chunks it was extended by (metadata_cache = their concatenation).  The model pairs every value with its
+        chunk; a value that came without metadata has no chunk (`if metadata:`) and is paired with []. *)
+Record collect_st := { cc_cache : list val; cc_chunks : list md }.
+Definition collect_load (s : nstate) : collect_st := {| cc_cache := map fst (st_win s); cc_chunks := map snd (st_win s) |}.
+Definition collect_store (s : nstate) (p : collect_st) : nstate :=
+  set_win s (combine (cc_cache p) (cc_chunks p ++ repeat [] (length (cc_cache p) - length (cc_chunks p)))).
+Definition collect_cache (p : collect_st) : list val := cc_cache p.
+Definition collect_metadata_cache (p : collect_st) : md := flatten_md (cc_chunks p).
+Definition collect_cache_append (x : val) (p : collect_st) : collect_st :=
+  {| cc_cache := cc_cache p ++ [x]; cc_chunks := cc_chunks p |}.
+Definition collect_metadata_cache_extend (m : md) (p : collect_st) : collect_st :=
+  {| cc_cache := cc_cache p; cc_chunks := cc_chunks p ++ [m] |}.
+Definition collect_cache_clear (p : collect_st) : collect_st := {| cc_cache := []; cc_chunks := cc_chunks p |}.
+Definition collect_metadata_cache_clear (p : collect_st) : collect_st := {| cc_cache := cc_cache p; cc_chunks := [] |}.
+
+(* ---- slice: self.state counts the elements seen (st_n); removing itself from the upstreams = st_detached -------- *)
+Definition slice_state (s : nstate) : nat := st_n s.
+Definition slice_state_set (n : nat) (s : nstate) : nstate := set_n s n (st_detached s).
+Definition slice_detach (s : nstate) : nstate := set_n s (st_n s) true.
